@@ -9,7 +9,7 @@ with the documented field layout.  Sampled histories, not a complete enumeration
 """
 import struct
 
-from .. import builder, env, seeds, simio  # noqa: F401
+from .. import builder, env, seeds, simio, noise  # noqa: F401
 from ..runner import Acc
 from ..simio import Ctx, HarnessTimeout, active
 
@@ -190,6 +190,9 @@ def execute(case):
     overwrote_nonzero = False
     for i, op in enumerate(case["ops"]):
         k = op["k"]
+        if k == "bgload":
+            noise.run(op)
+            continue
         if k == "setup":
             w = World(1 + op.get("lines", 3) % 8, 1 + op.get("tracks", 2) % 4, op.get("nmods", 2) % 4)
             hold(w)
@@ -478,6 +481,7 @@ def generate(seed, i, tier="quick"):
         if op["k"] == "save_load" and r.random() < 0.5:
             op["peek"] = False  # continue without looking at the loaded grid
     ops.append({"k": "save_load"})
+    noise.sprinkle(r, ops)
     return {"property": PROPERTY, "world": "words", "ops": ops}
 
 
